@@ -66,6 +66,7 @@ def c06b(ck, prog):
     R = "C06-b PAIR payload extent"
     par = prog.one(r"^ohkami::request::Request::read_payload$")
     f = prog.coroutine_body(par.key)
+    f = prog.inlined(f, 1, r"from_elem$|Slice::new_unchecked$|Slice::from_bytes$")       # a local helper may hold the allocation
     # the length parameter: the usize parameter of read_payload; the buffer parameter: the &[u8] one
     size_args = ["arg%d" % i for i in range(1, par.argc + 1) if par.locals[i] == "usize"]
     if len(size_args) != 1:
